@@ -217,6 +217,26 @@ func c18Exec(x *Ctx) {
 				continue
 			}
 			checkQid(ar.M.Qid, fmt.Sprintf("Tattach(aname=%q)", aname))
+			if aname == "" && r.Pct(25) {
+				// a second attach on the same connection, to a subtree; then '..' from the root fid of the first
+				sub := []string{"sub", "sub/deep", "/sub"}[r.Intn(3)]
+				if a2 := call(&Msg{Type: Tattach, Fid: 20, Afid: NOFID, Uname: "root", Aname: sub, Nuname: 0}); a2 != nil && a2.M != nil && a2.M.Type == Rattach {
+					checkQid(a2.M.Qid, fmt.Sprintf("second Tattach(aname=%q)", sub))
+					if wr := call(&Msg{Type: Twalk, Fid: 0, Newfid: 21, Wname: []string{"..", "canary.txt"}}); wr != nil && wr.M != nil && wr.M.Type == Rwalk {
+						for _, q := range wr.M.Wqid {
+							checkQid(q, fmt.Sprintf("attach \"\", attach %q, then walk '..', 'canary.txt' from the first root", sub))
+						}
+						if len(wr.M.Wqid) > 0 && wr.M.Wqid[0].Path != ar.M.Qid.Path {
+							x.Violate("x3-dotdot-at-root", "after a second attach (to %q) on the connection, '..' at the root of the first yields qid path %d, the root's is %d", sub, wr.M.Wqid[0].Path, ar.M.Qid.Path)
+						}
+						if len(wr.M.Wqid) == 2 {
+							call(&Msg{Type: Tclunk, Fid: 21})
+						}
+					}
+					call(&Msg{Type: Tclunk, Fid: 20})
+					x.Probe("second-attach-on-the-connection")
+				}
+			}
 			// go somewhere in the tree, then walk evil elements
 			cur := uint32(0)
 			if aname == "" && r.Pct(60) {
